@@ -1,0 +1,34 @@
+//go:build verif
+// +build verif
+
+package vbft
+
+import (
+	"github.com/polynetwork/poly/account"
+	"github.com/polynetwork/poly/common"
+	"github.com/polynetwork/poly/core/ledger"
+	"github.com/polynetwork/poly/core/types"
+)
+
+// VerifConstructBlock runs the proposer's constructBlock (header building: transactions root, BlockRoot from
+// the ledger's accumulator, CrossStateRoot of the previous block from the block pool / chain store, signature)
+// on a server that has just the state constructBlock reads: the account, a chain store and a block pool opened
+// on the given ledger. Compiled only with the build tag `verif`; no behaviour change without the tag.
+func VerifConstructBlock(lg *ledger.Ledger, acct *account.Account, blkNum uint32, prevBlkHash common.Uint256,
+	txs []*types.Transaction, consensusPayload []byte, blocktimestamp uint32) (*types.Block, error) {
+	old := ledger.DefLedger
+	ledger.DefLedger = lg
+	defer func() { ledger.DefLedger = old }()
+	server := &Server{account: acct, ledger: lg}
+	store, err := OpenBlockStore(lg, nil)
+	if err != nil {
+		return nil, err
+	}
+	pool, err := newBlockPool(server, 2, store)
+	if err != nil {
+		return nil, err
+	}
+	server.chainStore = store
+	server.blockPool = pool
+	return server.constructBlock(blkNum, prevBlkHash, txs, consensusPayload, blocktimestamp, common.ADDRESS_EMPTY)
+}
